@@ -314,12 +314,6 @@ func runC02(rc *RunCtx) {
 		} else if c.tc.SawEOF {
 			rc.Failf("spurious-eof-at-target", "conn %d (order D): target saw end of stream although the client had not half-closed", c.k)
 		}
-		// final status
-		for _, r := range srv.M.tcpFor(c.client.Rec.ID) {
-			if cl := r.first("closed"); cl != nil && cl.Status != "OK" {
-				rc.Failf("status:"+cl.Status, "conn %d (order %s): relay completed cleanly at both ends but the connection was reported %s", c.k, "ABCD"[c.order:c.order+1], cl.Status)
-			}
-		}
 		rc.State(fmt.Sprintf("order=%d coalesce=%v up=%d down=%d", c.order, c.coalesce, len(c.up), len(c.down)))
 	}
 	rc.Phase = "stop"
